@@ -201,6 +201,78 @@ def run(ctx, chk):
     import rules as _rules
     check_release(chk, prog, eff, cache, tables.constructors(prog, eff), _rules.item_offsets(prog), R="C01.release-safe", RX="C01.release-exhaustive")
 
+    # 7c. the counter assertions of the tree builder, as inductive invariants of the frames it keeps
+    chk.rule("C01.frame-invariants", "invariants behind the builder's value assertions: a definite frame is pushed with a positive count and "
+                                     "every decrement is followed at once by the ==0 test that pops it (so subitems > 0 whenever such a "
+                                     "frame is on the stack); tag frames are pushed with 1 and never modified; _cbor_map_add_value cannot "
+                                     "fail; the code point counter advances at most once per input byte")
+    sub_off = prog.field_offset("_cbor_stack_record", "subitems")
+    app = prog.fn("_cbor_builder_append")
+    aw = "%s:%d" % (app.file, app.line)
+    T = prog.enum("cbor_type")
+    ndec = 0
+    for k, pa in enumerate(cache.get(app.name)):
+        parent_types = set()
+        for key, vals in pa.st.inset.items():
+            if isinstance(key, tuple) and key[0] == "ld" and key[2] == prog.field_offset("cbor_item_t", "type"):
+                parent_types = set(vals)
+        for idx, e in enumerate(pa.events):
+            if e.kind == "store" and ptr_key(e.args[0])[1] == sub_off and isinstance(ptr_key(e.args[0])[0], tuple) and ptr_key(e.args[0])[0][0] == "ld":
+                v = e.args[1]
+                if v[0] == "op" and v[1] == "add" and ("c", (1 << 64) - 1) in (v[3], v[4]):
+                    ndec += 1
+                    zero = pa.st.truth.get(("icmp", "eq", v, ("c", 0)))
+                    later_pop = any(x.kind == "call" and x.callee == "_cbor_stack_pop" for x in pa.events[idx:])
+                    ok = zero is not None and (later_pop if zero else not later_pop)
+                    chk.ob("C01.frame-invariants", "_cbor_builder_append path %d: countdown is tested for zero and a finished frame is popped" % k, ok,
+                           e.ins.loc(), fn=app.name, key="dec:%d:%d" % (k, e.ins.id),
+                           detail="" if ok else "after subitems-- : zero test %s, frame popped %s" % (zero, later_pop))
+                elif parent_types == {T["CBOR_TYPE_TAG"]}:
+                    chk.ob("C01.frame-invariants", "_cbor_builder_append path %d: a tag frame's count is never modified" % k, False, e.ins.loc(),
+                           fn=app.name, key="tagmod:%d" % k)
+    chk.floor("C01.frame-invariants", "countdown sites on paths", ndec, 4)
+    av = prog.fn("_cbor_map_add_value")
+    okv = all(q.ret == ("c", 1) for q in cache.get(av.name))
+    chk.ob("C01.frame-invariants", "_cbor_map_add_value returns true on every path", okv, "%s:%d" % (av.file, av.line), fn=av.name, key="addvalue")
+    # pushes: definite containers with a positive count, tags with 1 (the counts themselves are C02.counter)
+    load_ = prog.fn("cbor_load")
+    g_ = prog.global_for(load_, "cbor_load.callbacks")
+    for el in g_["init_val"].elems:
+        fn_ = getattr(el, "name", None)
+        if not fn_ or fn_ not in prog.funcs:
+            continue
+        for k, pa in enumerate(cache.get(fn_)):
+            for e in pa.calls("_cbor_stack_push"):
+                cnt = e.args[2]
+                ctor = [x for x in pa.events if x.kind == "call" and x.res == e.args[1]]
+                cname = ctor[0].callee if ctor else "?"
+                if "definite_" in cname and "indefinite" not in cname:
+                    base = cnt
+                    if isinstance(cnt, tuple) and cnt[0] == "op" and cnt[1] in ("mul", "shl"):
+                        base = cnt[3] if not P.is_const(cnt[3]) else cnt[4]
+                    ok = pa.st.lo.get(base, 0) >= 1
+                    chk.ob("C01.frame-invariants", "%s: a definite frame is pushed only with a positive count" % fn_, ok, e.ins.loc(), fn=fn_,
+                           key="pushpos:%s" % fn_, detail="" if ok else "count %s not known to be positive" % DR.fmt_term(cnt))
+    uc = prog.fn("_cbor_unicode_codepoint_count")
+    lp = loops.classify_loops(prog, uc)
+    okc = len(lp) == 1 and lp[0]["ok"] and lp[0]["kind"].startswith("counted(up")
+    # the counter: a phi of the same header stepped by +1 at most (second counter)
+    from ir import Inst, Const
+    hdr = lp[0]["header"] if lp else None
+    second = False
+    if hdr is not None:
+        for i_ in hdr.insts:
+            if i_.op == "phi":
+                for v_, pb_ in i_.incoming:
+                    v0 = v_
+                    if isinstance(v0, Inst) and v0.op == "phi":
+                        # count.1 = phi [count+1, then], [count, else]
+                        if all((isinstance(x, Inst) and x.op == "add" and x.operands[0] is i_ and isinstance(x.operands[1], Const) and x.operands[1].v == 1) or x is i_
+                               for x in v0.operands):
+                            second = True
+    chk.ob("C01.frame-invariants", "code point counter advances at most once per iteration of the byte loop (count <= length)", okc and second,
+           "%s:%d" % (uc.file, uc.line), fn=uc.name, key="cpcount")
+
     # 8. NULL discipline
     N = O.Nullness(prog, eff, cache)
     nn = 0
